@@ -64,6 +64,13 @@ Proof. exact ver_ltb_trans. Qed.
 Theorem C20_ver_eqb_eq : forall a b, ver_eqb a b = true <-> a = b.
 Proof. exact ver_eqb_eq. Qed.
 
+Theorem C20_ver_leb_total_order : forall a b c,
+  ver_leb a a = true /\
+  (ver_leb a b = true -> ver_leb b c = true -> ver_leb a c = true) /\
+  (ver_leb a b = true -> ver_leb b a = true -> a = b) /\
+  (ver_leb a b = true \/ ver_leb b a = true).
+Proof. exact ver_leb_total_order. Qed.
+
 (* 3.9.0 is older than 3.16.0 although the string "3.16.0" sorts before "3.9.0" *)
 Theorem C20_semver_not_string_order :
   parse_version "3.9.0" = Some (3, 9, 0) /\ parse_version "3.16.0" = Some (3, 16, 0) /\
@@ -435,3 +442,4 @@ Print Assumptions C20_history_name.
 Print Assumptions C20_ex_history_vending.
 Print Assumptions C20_migrate_once_then_fixed.
 Print Assumptions C20_at_code_version_nothing_changes.
+Print Assumptions C20_ver_leb_total_order.
